@@ -153,6 +153,8 @@ def special_table():
     def same(r, f):
         if isinstance(r, float):
             r = Float.from_float(r)
+        if isinstance(r, RealFloat) and not isinstance(r, Float):
+            r = Float(r.s, r.exp, r.c)
         if math.isnan(f):
             return r.isnan
         if math.isinf(f):
@@ -174,6 +176,17 @@ def special_table():
             bad.append(['cmp', ka, kb])
         if not a.isnan and not b.isnan and fa == fb and hash(a) != hash(b):
             bad.append(['hash', ka, kb])
+    # a host float on one side (the API accepts it): RealFloat / Float with every special double, both operand orders
+    reals = {'5': (RealFloat(False, 0, 5), 5.0), '-5': (RealFloat(True, 0, 5), -5.0), '+0': (RealFloat(False, 0, 0), 0.0), '-0': (RealFloat(True, 0, 0), -0.0), '0.75r': (RealFloat(False, -4, 12), 0.75)}
+    hosts = [math.nan, math.inf, -math.inf, 0.0, -0.0, 2.5, -1.0]
+    for (ka, (a, fa)), h in itertools.product(list(reals.items()) + [(k, (v, ref[k])) for k, v in vals.items()], hosts):
+        for nm, fn in (('add', lambda x, y: x + y), ('sub', lambda x, y: x - y), ('mul', lambda x, y: x * y), ('radd', lambda x, y: y + x), ('rsub', lambda x, y: y - x), ('rmul', lambda x, y: y * x)):
+            n += 1
+            try:
+                if not same(fn(a, h), fn(fa, h)):
+                    bad.append([nm + ' host float', ka, repr(h)])
+            except Exception as ex:  # noqa
+                bad.append([nm + ' host float raised ' + type(ex).__name__, ka, repr(h)])
     for ka, a in vals.items():
         fa = ref[ka]
         n += 3
